@@ -4,7 +4,7 @@
 //! internal items and a statistics probe. Nothing here changes behaviour.
 
 pub use crate::codec::{Codec, SendError, UserError};
-pub use crate::hpack::{BytesStr, Decoder, DecoderError, Encoder, Header, NeedMore};
+pub use crate::hpack::{BytesStr, Decoder, DecoderError, Encoder, Header};
 pub use crate::proto::{VerifProbe, VerifStats};
 
 pub mod frame {
